@@ -68,6 +68,41 @@ func init() {
 			},
 			RawEquals: func(a, b interface{}) bool { return a.(*capPayload).N%8 == b.(*capPayload).N%8 },
 			HashKey:   func(v interface{}) string { return fmt.Sprint(v.(*capPayload).N % 2) },
+			// conversions to and from the capsule type (the payload pointers come from the fixed pool, so
+			// that the same source always converts to the same, comparable, encapsulated pointer)
+			ConversionFrom: func(dst cty.Type) func(interface{}, cty.Path) (cty.Value, error) {
+				switch {
+				case dst == cty.Number:
+					return func(v interface{}, _ cty.Path) (cty.Value, error) {
+						return cty.NumberIntVal(int64(v.(*capPayload).N)), nil
+					}
+				case dst == cty.String:
+					return func(v interface{}, _ cty.Path) (cty.Value, error) {
+						if v.(*capPayload).N == 5 {
+							return cty.NilVal, fmt.Errorf("payload 5 has no text")
+						}
+						return cty.StringVal(fmt.Sprintf("cap%d", v.(*capPayload).N)), nil
+					}
+				}
+				return nil
+			},
+			ConversionTo: func(src cty.Type) func(cty.Value, cty.Path) (interface{}, error) {
+				if src == cty.Bool {
+					return func(v cty.Value, _ cty.Path) (interface{}, error) {
+						if v.True() {
+							return capPayloads[1][1], nil
+						}
+						return capPayloads[1][0], nil
+					}
+				}
+				return nil
+			},
+			ExtensionData: func(key interface{}) interface{} {
+				if key == "verif" {
+					return "extension data"
+				}
+				return nil
+			},
 		}),
 	}
 	for ti := range capPayloads {
